@@ -23,6 +23,17 @@ CLAIMED.update({
    text="Wire bytes of WriteMsg are compared with an independent framing for every length around the 127-word switch; reference-framed streams are read back through go-dry's CancelableReader under every composition of short streams and PRNG segmentations of long ones, then EOF; the TCP path drives transport.NewTransport against a peer that writes segments, incl. 4-byte signed error codes and orderly close.",
    note="trusted: ref/mtp framing, kernel loopback; on the TCP path the kernel decides the split actually seen (the deterministic path is the exhaustive one)", ref="6/C08"),
 })
+CLAIMED.update({
+ "C12": dict(level="exploration", technique="runtime monitoring of store/load histories against a one-register model, crash-point (every file prefix) enumeration, coarse-mtime fault emulation",
+   text="PRNG sessions over four path kinds through same/fresh loaders; store/load histories over 1-3 loader objects checked against a last-store-wins register, natively and with one-second mtime emulation; every strict prefix of stored files loaded by a fresh loader must be an error. (The resume-without-key-exchange clause is monitored end-to-end once the reference server workloads are enabled; see DESIGN 6/C12.)",
+   note="trusted: local filesystem semantics, os.Chtimes as emulation of coarse timestamps", ref="6/C12"),
+ "C17": dict(level="exploration", technique="runtime differential monitoring of RpcErrorToNative against an independent zone oracle (strict / plain / don't-care), recover()-based panic monitor",
+   text="All 15 table rows x hostile parameter spellings, every catalogued name (read from errors.go at run time), PRNG texts with % verbs; strict zone demands exact message/parameter/description, don't-care zone demands no panic, code preserved and message raw or X-form.",
+   note="trusted: ref/rpcerr table restated from the property; errors.go catalogue as the documentation", ref="6/C17"),
+ "C18": dict(level="exploration", technique="runtime monitoring against an independent SRP-2048 server (verifier-only), corner search for leading-zero A/B/S",
+   text="GetInputCheckPassword answers are checked by an independent SRP server that holds only v: right password must verify, a neighbouring wrong password must not; corners with leading-zero B, A, S are searched at run time (A/S via scripted crypto/rand.Reader); empty password and out-of-range B.",
+   note="trusted: ref/srpsrv (hand-written PBKDF2-HMAC-SHA512, formulas from core.telegram.org/api/srp)", ref="6/C18"),
+})
 NOT_YET = {}
 
 def main():
